@@ -140,6 +140,23 @@ Example C14_no_bypass_nonvacuous :
   /\ op_bits S (BLsh 2) (SBits 1 1) = Ok (SBits 3 4) /\ op_bits S (BLsh 3) (SBits 1 1) = Err EConstraint.
 Proof. vm_compute. repeat split. Qed.
 
+(* Encoders refuse constructed values that violate their constraints, and (code as repaired by
+   fixes/F14d.diff) reading the value beforehand does not change that verdict. *)
+Theorem C14_encoder_verdict_stable : forall spec r,
+  encoder_admits spec (read_all r) = encoder_admits spec r.
+Proof. exact encoder_verdict_stable. Qed.
+Print Assumptions C14_encoder_verdict_stable.
+
+(* Finding F14d: before the repair, isInconsistent took a component that had been read but never
+   assigned for a present one: a refused record is accepted after a read. *)
+Theorem C14_read_bypass_unrepaired_refuted :
+  exists spec r,
+    encoder_admits_unrepaired spec r = Fail
+    /\ encoder_admits_unrepaired spec (read_all r) = Pass
+    /\ encoder_admits spec (read_all r) = Fail.
+Proof. exact unrepaired_read_bypasses. Qed.
+Print Assumptions C14_read_bypass_unrepaired_refuted.
+
 (* Where the implementation leaves the denotation (each one replayed on the implementation by
    harness/props/c14.py):
    - an empty operand / value list means "no constraint" to pyasn1 and the empty set to set theory
